@@ -213,6 +213,27 @@ func (am *AllocMon) NewBlockAtLocation(loc *pb.BlockLocation, writeOffset int64)
 	return &blockMon{inner: b, info: info, am: am}, true
 }
 
+// ProbeFree counts how many blocks the real allocator can hand out
+// right now, by allocating until it refuses and releasing them again
+// (bypasses the monitor's bookkeeping).
+func (am *AllocMon) ProbeFree() int {
+	var got []local.Block
+	for {
+		b, _, err := am.inner.NewBlock()
+		if err != nil {
+			break
+		}
+		got = append(got, b)
+		if len(got) > 1000 {
+			break
+		}
+	}
+	for _, b := range got {
+		b.Release()
+	}
+	return len(got)
+}
+
 // InUse returns the number of incarnations not yet released by the
 // block list (the list's reference; readers/writers may still pin).
 func (am *AllocMon) InUse() int {
